@@ -238,6 +238,18 @@ func (g *guardEnv) predOfFact(f condFact, k elemKey, at *ssa.BasicBlock) predSet
 		if name, ok := g.reqHeader(arg); ok && name == "Content-Type" {
 			return pCtype
 		}
+		// the header value held in a variable a closure captures
+		if srcs := p.sources(arg, provDefault); len(srcs) > 0 {
+			all := true
+			for _, s := range srcs {
+				if name, ok := g.reqHeader(s); !ok || name != "Content-Type" {
+					all = false
+				}
+			}
+			if all {
+				return pCtype
+			}
+		}
 		// accept: the header, or the "*/*" default when the header is empty
 		okAccept := true
 		sawHeader := false
@@ -340,6 +352,10 @@ func (g *guardEnv) conditionsFlag(phi *ssa.Phi, k elemKey, at *ssa.BasicBlock) b
 	// every true edge of the flag comes from the header's exhaustion; every false edge from the failing condition
 	for e, v := range vals {
 		pred := phi.Block().Preds[e]
+		// straight-line blocks between the loop's exhaustion exit and the flag (an assignment of the result) do not count
+		for pred != header && len(pred.Preds) == 1 && len(pred.Succs) == 1 {
+			pred = pred.Preds[0]
+		}
 		if v && pred != header {
 			return false
 		}
